@@ -37,7 +37,7 @@ BOUND = {k: v + "; plus: " + "list names with a dot next to their stem; a user-w
 
 LISTS = ["c", "c1", "d"]
 VARIANTS = ["plain", "filter", "rand", "randseed", "randseedref", "multi", "rank", "or_other", "shared", "search",
-            "multi_or_other", "unused", "fromrepeat", "fromrepeat-filter"]
+            "multi_or_other", "unused", "fromrepeat", "fromrepeat-filter", "randfalse", "randfalseseed", "randfilter", "multirandfalse"]
 
 
 def gen_lists(tier):
@@ -99,6 +99,12 @@ def ext_features():
                                {"pd1": "jr://file-csv/pd1.csv", "pd4": "jr://file-csv/pd4.csv"}),
         "last-saved": ({"type": "text", "name": "l1", "label": "L1", "default": "${last-saved#t0}"}, {"__last-saved": "jr://instance/last-saved"}),
         "last-saved-2": ({"type": "text", "name": "l2", "label": "L2", "calculation": "${last-saved#t0} + 1"}, {"__last-saved": "jr://instance/last-saved"}),
+        "file-filter-last-saved": ({"type": "select_one_from_file f5.csv", "name": "s7", "label": "S7", "choice_filter": "a = ${last-saved#t0}"},
+                                   {"f5": "jr://file-csv/f5.csv", "__last-saved": "jr://instance/last-saved"}),
+        "file-xml-filter-last-saved": ({"type": "select_multiple_from_file f6.xml", "name": "s8", "label": "S8", "choice_filter": "a = ${last-saved#t0}"},
+                                       {"f6": "jr://file/f6.xml", "__last-saved": "jr://instance/last-saved"}),
+        "choices-filter-last-saved": ({"type": "select_one c", "name": "s9", "label": "S9", "choice_filter": "name != ${last-saved#t0}"}, {"c": None, "__last-saved": "jr://instance/last-saved"}),
+        "group-relevant-last-saved": ({"type": "begin group", "name": "gl", "label": "GL", "relevant": "${last-saved#t0} != ''", "_close": "group"}, {"__last-saved": "jr://instance/last-saved"}),
         "choices-c": ({"type": "select_one c", "name": "sc", "label": "SC"}, {"c": None}),
         "choices-f1": ({"type": "select_one f1", "name": "sf", "label": "SF"}, {"f1": None}),
     }
@@ -176,6 +182,14 @@ def build_lists(case):
         sel["parameters"] = "randomize=true seed=42"
     elif v == "randseedref":
         sel["parameters"] = "randomize=true, seed=${n}"
+    elif v == "randfalse":
+        sel["parameters"] = "randomize=false"
+    elif v == "randfalseseed":
+        sel["parameters"] = "randomize=false seed=5"
+    elif v == "multirandfalse":
+        sel.update(type="select_multiple c", parameters="randomize=false", choice_filter="x = ${n}")
+    elif v == "randfilter":
+        sel.update(parameters="seed=7 randomize=true", choice_filter="x = ${n}")
     elif v == "multi":
         sel["type"] = "select_multiple c"
     elif v == "rank":
@@ -277,7 +291,7 @@ def check_lists(case, wb, out, viol):
     if s_el is None:
         viol.append(("select-control-missing", ""))
         return
-    want_tag = {"multi": "select", "multi_or_other": "select", "rank": "rank"}.get(v, "select1")
+    want_tag = {"multi": "select", "multi_or_other": "select", "rank": "rank", "multirandfalse": "select"}.get(v, "select1")
     if O.local(s_el.tag) != want_tag:
         viol.append((f"select-tag:{v}", O.local(s_el.tag)))
     nref = f"{base}/n" if case["place"] != "repeat" else "../n"
@@ -288,6 +302,8 @@ def check_lists(case, wb, out, viol):
         "randseedref": f"randomize(instance('c')/root/item, {nref})", "multi": "instance('c')/root/item",
         "rank": "instance('c')/root/item", "or_other": "instance('c')/root/item", "shared": "instance('c')/root/item",
         "multi_or_other": "instance('c')/root/item",
+        "randfalse": "instance('c')/root/item", "randfalseseed": "instance('c')/root/item",
+        "multirandfalse": f"instance('c')/root/item[x = {cur}{nref}]", "randfilter": f"randomize(instance('c')/root/item[x = {cur}{nref}], 7)",
     }
 
     def check_itemset(el, list_name, expn, who):
@@ -356,7 +372,13 @@ def check_lists(case, wb, out, viol):
 def build_ext(case):
     F = ext_features()
     rows = [{"type": "text", "name": "t0", "label": "T0"}]
-    body = [dict(F[f][0]) for f in case["feats"]]
+    body = []
+    for f in case["feats"]:
+        r = dict(F[f][0])
+        if r.pop("_close", None):
+            body += [r, {"type": "text", "name": r["name"] + "q", "label": "GQ"}, {"type": "end group"}]
+        else:
+            body.append(r)
     if case["place"] == "repeat":
         inner = [r for r in body if r["type"] not in ("xml-external", "csv-external")]
         outer = [r for r in body if r["type"] in ("xml-external", "csv-external")]
@@ -415,7 +437,8 @@ def check_ext(case, wb, out, viol):
         want_l = pm.get("label", "title" if ext == ".geojson" else "label")
         el = next((e for e, tag, ref, anc in obs.body_controls() if ref and ref.endswith("/" + row["name"]) and tag in ("select", "select1")), None)
         its = el.findall(O.X + "itemset") if el is not None else []
-        ok = len(its) == 1 and norm_ws(its[0].get("nodeset") or "") == f"instance('{stem}')/root/item"
+        flt = "[a = instance('__last-saved')/data/t0]" if "last-saved" in row.get("choice_filter", "") else ""
+        ok = len(its) == 1 and norm_ws(its[0].get("nodeset") or "").replace("[ ", "[").replace(" ]", "]") == f"instance('{stem}')/root/item{flt}"
         if ok:
             v, lb = its[0].find(O.X + "value"), its[0].find(O.X + "label")
             ok = v is not None and lb is not None and v.get("ref") == want_v and lb.get("ref") == want_l
